@@ -77,6 +77,28 @@ impl Lay {
             ks_glwe: rng.chance(500),
         }
     }
+    /// Objects of megabytes rather than kilobytes (thresholds: payload above 64 KiB, more than 8 rows, many limbs).
+    pub fn large(rng: &mut Rng) -> Lay {
+        let n = *rng.pick(&[256u32, 512, 1024, 2048]);
+        let base2k = rng.range(8, 17) as u32;
+        let size = rng.range(3, 9) as u32;
+        let k = base2k * (size - 1) + rng.range(1, base2k as u64) as u32;
+        let dsize = rng.range(1, 3.min(size - 1) as u64) as u32;
+        let dnum = rng.range(1, (size / dsize).max(1) as u64) as u32;
+        Lay {
+            n,
+            base2k,
+            k,
+            rank_in: rng.range(1, 3) as u32,
+            rank_out: rng.range(1, 3) as u32,
+            dnum,
+            dsize,
+            n_lwe: rng.range(1, 32) as u32,
+            cols: rng.range(1, 4) as u32,
+            rows: rng.range(1, 12) as u32,
+            ks_glwe: rng.chance(500),
+        }
+    }
     /// A layout with the same structure (counts, Galois set, option tags) but different capacity.
     pub fn resized(&self, rng: &mut Rng, grow: bool) -> Lay {
         let mut l = self.clone();
